@@ -519,13 +519,14 @@ pub struct C03 {
     shaping: Vec<usize>,
     variable: Vec<usize>,
     images: Vec<usize>,
+    all: Vec<usize>,
     words: BTreeMap<&'static str, Vec<String>>,
     pure: c03_pure::Pure,
 }
 
 impl C03 {
     pub fn new(cx: &mut Ctx) -> C03 {
-        let max_len = if cx.quick() { 700_000 } else { 2_500_000 };
+        let max_len = 2_500_000;
         let mut fonts = Vec::new();
         for sf in load_seed_fonts(max_len, false) {
             if let Some(f) = classify(&sf.name, sf.data) {
@@ -535,6 +536,7 @@ impl C03 {
         let shaping: Vec<usize> = (0..fonts.len()).filter(|&i| fonts[i].has_gsub).collect();
         let variable: Vec<usize> = (0..fonts.len()).filter(|&i| fonts[i].has_fvar).collect();
         let images: Vec<usize> = (0..fonts.len()).filter(|&i| fonts[i].has_images).collect();
+        let all: Vec<usize> = (0..fonts.len()).collect();
         let mut words = BTreeMap::new();
         for key in ["indic/good.hi", "indic/good.bn", "indic/good.gu", "indic/good.kn", "indic/good.ml", "indic/good.or", "indic/good.pa", "indic/good.si", "indic/good.ta", "indic/good.te", "khmer/good", "myanmar/good"] {
             let mut v = Vec::new();
@@ -546,7 +548,7 @@ impl C03 {
             words.insert(key, v);
         }
         let pure = c03_pure::Pure::new(cx);
-        C03 { fonts, shaping, variable, images, words, pure }
+        C03 { fonts, shaping, variable, images, all, words, pure }
     }
 
     fn word(&self, script: u32, rng: &mut Rng) -> String {
@@ -666,6 +668,8 @@ enum FontClass {
     Shaping,
     Variable,
     Images,
+    /// any loadable seed font (symbol-encoded, CFF, WOFF, WOFF2, ...)
+    Any,
     Generated,
 }
 
@@ -715,7 +719,7 @@ impl C03 {
             let s = *rng.pick(&scripts);
             texts.push((self.text(s, rng), s));
         }
-        let mut chars = vec!['A', '\u{2764}', '\u{1F600}', ' '];
+        let mut chars = vec!['A', '\u{2764}', '\u{1F600}', ' ', '\u{F041}', '\u{41}'];
         for (t, _) in &texts {
             if let Some(c) = t.chars().next() {
                 chars.push(c);
@@ -776,21 +780,38 @@ impl C03 {
 fn gen_tuples(g: &GenFont, rng: &mut Rng) -> Option<(Vec<Vec<i16>>, Vec<OwnedTuple>)> {
     let fvar_bytes = crate::sfnt::Font::parse(&g.bytes)?.gets("fvar")?.to_vec();
     let fvar = ReadScope::new(&fvar_bytes).read::<FvarTable<'_>>().ok()?;
-    // retry until at least two tuples select different GSUB variation records (or record / none)
-    for _ in 0..20 {
-        let n = 2 + rng.below(2);
-        let raws: Vec<Vec<i16>> = (0..n).map(|_| (0..g.axes).map(|_| *rng.pick(c03_gen::COORDS)).collect()).collect();
-        let sels: Vec<Option<usize>> = raws.iter().map(|r| g.gsub.select(Some(r))).collect();
-        if sels.iter().any(|s| *s != sels[0]) {
-            let mut owned = Vec::new();
-            for r in &raws {
-                let v: Vec<F2Dot14> = r.iter().map(|x| F2Dot14::from_raw(*x)).collect();
-                owned.push(fvar.owned_tuple(&v)?);
-            }
-            return Some((raws, owned));
-        }
+    // choose tuples from different selection classes of the GSUB (or else GPOS) variation records
+    // whenever the description has more than one class
+    let mut all: Vec<Vec<i16>> = vec![Vec::new()];
+    for _ in 0..g.axes {
+        all = all.into_iter().flat_map(|v| c03_gen::COORDS.iter().map(move |c| { let mut w = v.clone(); w.push(*c); w })).collect();
     }
-    None
+    rng.shuffle(&mut all);
+    let layout = if rng.chance(1, 4) { &g.gpos } else { &g.gsub };
+    let mut classes: BTreeMap<Option<usize>, Vec<Vec<i16>>> = BTreeMap::new();
+    for t in all {
+        classes.entry(layout.select(Some(&t))).or_default().push(t);
+    }
+    let n = 2 + rng.below(2);
+    let mut raws: Vec<Vec<i16>> = Vec::new();
+    let mut round = 0;
+    while raws.len() < n && round < 4 {
+        for (_, v) in classes.iter() {
+            if raws.len() < n {
+                if let Some(t) = v.get(round) {
+                    raws.push(t.clone());
+                }
+            }
+        }
+        round += 1;
+    }
+    rng.shuffle(&mut raws);
+    let mut owned = Vec::new();
+    for r in &raws {
+        let v: Vec<F2Dot14> = r.iter().map(|x| F2Dot14::from_raw(*x)).collect();
+        owned.push(fvar.owned_tuple(&v)?);
+    }
+    Some((raws, owned))
 }
 
 fn mask_tags(bits: u64) -> Vec<u32> {
@@ -852,6 +873,25 @@ fn gen_pools(g: &GenFont, ntuples: usize, rng: &mut Rng) -> Pools {
     Pools { scripts, langs, feats, tuples: ntuples, texts, chars, gids, image_heavy: false }
 }
 
+/// Short form of a rendered result for witnesses: glyph ids / kerning / placements of a run,
+/// otherwise the first 600 characters.
+fn compact(s: &str) -> String {
+    if s.contains("glyph_index: ") {
+        let grab = |key: &str| -> Vec<String> {
+            s.match_indices(key).map(|(i, _)| s[i + key.len()..].chars().take_while(|c| *c != ',' && *c != ' ' && *c != '}').collect::<String>()).collect()
+        };
+        let head: String = s.chars().take_while(|c| *c != '[').collect();
+        let mut out = format!("{} glyph_index={:?}", head, grab("glyph_index: "));
+        if s.contains("kerning: ") {
+            out.push_str(&format!(" kerning={:?} placement={:?}", grab("kerning: "), grab("placement: ")));
+        }
+        out.push_str(&format!(" variation={:?}", grab("variation: ")));
+        out.chars().take(1500).collect()
+    } else {
+        s.chars().take(600).collect()
+    }
+}
+
 fn parse_shape_ok(rendered: &str) -> bool {
     rendered.starts_with("Ok(")
 }
@@ -865,6 +905,7 @@ impl C03 {
     fn history_case(&mut self, cx: &mut Ctx, rng: &mut Rng, class: FontClass) {
         // --- the font, its tuples and pools
         let gen: Option<GenFont>;
+        let mut real_fv = false;
         let mut gen_raw_tuples: Vec<Vec<i16>> = Vec::new();
         let (bytes, name, tuples, pools): (&[u8], String, Vec<OwnedTuple>, Pools) = match class {
             FontClass::Generated => {
@@ -872,7 +913,7 @@ impl C03 {
                 let (raws, owned) = match gen_tuples(&g, rng) {
                     Some(x) => x,
                     None => {
-                        cx.inconclusive("gen:no-distinct-tuples");
+                        cx.inconclusive("gen:no-tuples");
                         return;
                     }
                 };
@@ -887,13 +928,15 @@ impl C03 {
                 let list = match class {
                     FontClass::Shaping => &self.shaping,
                     FontClass::Variable => &self.variable,
-                    _ => &self.images,
+                    FontClass::Images => &self.images,
+                    _ => &self.all,
                 };
                 if list.is_empty() {
                     cx.inconclusive("no-font-of-class");
                     return;
                 }
                 let f = &self.fonts[*rng.pick(list)];
+                real_fv = f.has_gsub_fv && f.has_fvar;
                 let tuples = if f.has_fvar { self.real_tuples(f, rng) } else { Vec::new() };
                 let pools = self.real_pools(f, class, tuples.len(), rng);
                 (f.data.as_slice(), f.name.clone(), tuples, pools)
@@ -948,6 +991,7 @@ impl C03 {
             }
             if panicked {
                 cx.class("both-panicked-identically");
+                cx.class(&format!("both-panicked-identically:{}", got.replace('\n', " ").chars().take(120).collect::<String>()));
                 break; // the long-lived font may be left half-updated by the unwinding
             }
             history.push(op);
@@ -958,6 +1002,12 @@ impl C03 {
         }
         let _ = violated;
         cx.class(&format!("history:{:?}", class));
+        if real_fv {
+            cx.class("history:real-font-with-gsub-feature-variations");
+        }
+        if history.len() >= 2 && history.iter().any(|h| *h != history[0]) {
+            cx.class("history:two-or-more-distinct-calls");
+        }
         if any_hit_after_different_args && compared >= 2 {
             let mut h = hash_bytes(bytes);
             for op in &history {
@@ -1076,7 +1126,7 @@ impl C03 {
                 break;
             }
         }
-        let shorten = |s: &str| -> String { s.chars().take(1500).collect() };
+        let shorten = |s: &str| -> String { compact(s) };
         let (sig, detail) = match minimal {
             Some((mut h, mut r)) => {
                 // 2. make the predecessor as similar to the probe as possible
@@ -1146,12 +1196,14 @@ impl Prop for C03 {
             "shaping" => self.history_case(cx, rng, FontClass::Shaping),
             "variable" => self.history_case(cx, rng, FontClass::Variable),
             "images" => self.history_case(cx, rng, FontClass::Images),
+            "any" => self.history_case(cx, rng, FontClass::Any),
             _ => match rng.below(100) {
                 0..=11 => self.pure.case(cx, rng),
-                12..=41 => self.history_case(cx, rng, FontClass::Generated),
-                42..=79 => self.history_case(cx, rng, FontClass::Shaping),
-                80..=91 => self.history_case(cx, rng, FontClass::Variable),
-                _ => self.history_case(cx, rng, FontClass::Images),
+                12..=39 => self.history_case(cx, rng, FontClass::Generated),
+                40..=71 => self.history_case(cx, rng, FontClass::Shaping),
+                72..=83 => self.history_case(cx, rng, FontClass::Variable),
+                84..=91 => self.history_case(cx, rng, FontClass::Images),
+                _ => self.history_case(cx, rng, FontClass::Any),
             },
         }
     }
